@@ -22,7 +22,7 @@ STUBS = ["np proxy", "SymArray"]
 
 def bounds_text(tier):
     if tier == "quick":
-        return "orderings n=2..6; efficiency/additivity/homogeneity/null/entry-point n=2..8; relabelling all perms n<=4, transpositions n<=6"
+        return "orderings n=2..7; efficiency/additivity/homogeneity/null/entry-point n=2..9; relabelling all perms n<=4, transpositions n<=6"
     return "orderings n=2..7; consequences n=2..10; relabelling all perms n<=5, adjacent transpositions n<=8"
 
 
@@ -33,8 +33,8 @@ def tasks(tier, seed):
         d = {"key": f"{kind}/n{n}" + "".join(f"/{k}={v}" for k, v in sorted(kw.items())), "kind": kind, "n": n}
         d.update(kw)
         out.append(d)
-    nmax_ord = 7 if tier == "thorough" else 6
-    nmax = 10 if tier == "thorough" else 8
+    nmax_ord = 7
+    nmax = 10 if tier == "thorough" else 9
     for n in range(2, nmax_ord + 1):
         add("orderings", n)
     for n in range(2, nmax + 1):
